@@ -108,12 +108,19 @@ Commit(k) ==
     /\ UNCHANGED <<lv, may, phase, chosen, sess, content, pos, wr, cur, tables, level, maxv>>
 
 \* ---- Close + Open: the memtable becomes an L0 table; the oracle restarts above the largest version
-Reopen ==
+\* found in the tables.  Entries a compaction was allowed to drop (may) are possibly not there any
+\* more: X is the part that is really gone (a dropped delete marker may have carried the largest
+\* version, so the next timestamp can be smaller than before the re-open).
+Reopen(X) ==
     /\ phase = "idle"
-    /\ nextTs' = MaxOf({e.ts : e \in db}) + 1
+    /\ X \subseteq may
+    \* a compaction drops a delete marker only together with everything below it
+    /\ \A e \in X : \A f \in db : (f.k = e.k /\ f.ts < e.ts) => f \in X
+    /\ db' = db \ X /\ expect' = expect \ X /\ may' = may \ X
+    /\ nextTs' = MaxOf({e.ts : e \in db'}) + 1
     /\ lv' = IF mem THEN lv \cup {0} ELSE lv
     /\ mem' = FALSE
-    /\ UNCHANGED <<db, may, phase, chosen, sess, content, pos, wr, cur, tables, level, maxv, ncommit, expect>>
+    /\ UNCHANGED <<phase, chosen, sess, content, pos, wr, cur, tables, level, maxv, ncommit>>
 
 \* ---- Prepare / PrepareIncremental
 \* full: dropAll, tables go to the last level. incr: needs an empty memtable (stream_writer.go:107);
@@ -185,7 +192,7 @@ Batches == [Streams -> 0..MaxBatch]
 
 Next ==
     \/ \E k \in Keys : Commit(k)
-    \/ Reopen
+    \/ \E X \in SUBSET may : Reopen(X)
     \/ \E m \in {"full", "incr"} : Prepare(m)
     \/ \E s \in Streams : \E S \in SUBSET Cands(s) : Choose(s, S)
     \/ \E n \in Batches, d \in SUBSET Streams : Write(n, d)
@@ -208,7 +215,8 @@ VisibleTs(S, k) == LET C == {e \in S : e.k = k} top == MaxOf({e.ts : e \in C}) I
                    IF C = {} \/ \E e \in C : e.ts = top /\ e.kind = "del" THEN 0 ELSE top
 DroppedInvisible == \A k \in Keys : VisibleTs(db \ may, k) = VisibleTs(db, k)
 
-\* every transaction that follows gets a timestamp above every version in the database
+\* every transaction that follows gets a timestamp above every version in the database (a
+\* delete marker that a compaction dropped is not in the database any more)
 NextTsAboveAll == phase = "idle" => \A e \in db : e.ts < nextTs
 
 \* no entry is lost or duplicated on its way through builders and table cuts
